@@ -3,11 +3,77 @@ package sim
 import (
 	"encoding/json"
 	"fmt"
+	"strings"
 )
 
 // GenPlan derives the plan of run `index` of a batch from the batch seed.
 // Every choice comes from sub-streams of one integer.
+// BatteryBase: plan indices from here on denote the *battery*: one fixed list of requests of
+// every kind (a function of the batch seed only). Every long-lived node of the main pass executes
+// it last, a fresh node executes nothing else; a node whose answers differ from the fresh node's
+// has been changed by what it served before (a sticky switch, a polluted singleton, a registry
+// left re-ordered) - whatever its own plans happened to contain.
+const BatteryBase = 1 << 30
+
+func genBattery(prop string, batchSeed uint64) *Plan {
+	seed := Mix(Mix(batchSeed, prop), "battery")
+	p := &Plan{Property: prop, Seed: seed, Index: BatteryBase, Profile: "battery"}
+	g := &Gen{R: NewRand(Mix(seed, "gen")), O: DefaultGenOpts()}
+	add := func(id string, body []byte) {
+		op := httpOp(id, body)
+		op.MapOrder = &MapOrder{Mode: "sorted"}
+		p.Ops = append(p.Ops, op)
+	}
+	for i, m := range AllMethods {
+		g.O.Methods = []string{m}
+		g.O.MaxBiases, g.O.MinBiases = 0, 0
+		add(fmt.Sprintf("bat-plain%d", i), JSONBytes(g.Valid().Body))
+		g.O.MaxBiases, g.O.MinBiases = 3, 1
+		add(fmt.Sprintf("bat-biased%d", i), JSONBytes(g.Valid().Body))
+	}
+	g.O.Methods = AllMethods
+	g.O.MaxBiases, g.O.MinBiases = 2, 0
+	for i := 0; i < 10; i++ {
+		c := g.ViolateOne()
+		add(fmt.Sprintf("bat-violation%d:%s", i, c.Name), JSONBytes(c.Body))
+	}
+	// hostile bodies, at least one of every kind whose verdict a lenient / polluted process changes
+	want := map[string]bool{"nearby-type": false, "case-variant-key": false, "unusual-parameter": false, "mistyped-nested": false, "tree-edit": false, "undeclared-criterion-value": false}
+	n := 0
+	for tries := 0; tries < 4000 && n < 40; tries++ {
+		kind, body := g.Hostile()
+		base := kind
+		if k := strings.IndexByte(kind, ':'); k >= 0 {
+			base = kind[:k]
+		}
+		done, tracked := want[base]
+		if n < 16 || (tracked && !done) {
+			if tracked {
+				want[base] = true
+			}
+			if len(body) > 200000 {
+				continue
+			}
+			add(fmt.Sprintf("bat-hostile%d:%s", n, base), body)
+			n++
+		}
+		all := true
+		for _, v := range want {
+			all = all && v
+		}
+		if all && n >= 16 {
+			break
+		}
+	}
+	return p
+}
+
 func GenPlan(prop string, batchSeed uint64, index int, tier string) *Plan {
+	if index >= BatteryBase {
+		p := genBattery(prop, batchSeed)
+		p.Index = index
+		return p
+	}
 	seed := MixN(Mix(batchSeed, prop), uint64(index))
 	p := &Plan{Property: prop, Seed: seed, Index: index}
 	switch prop {
